@@ -9,5 +9,4 @@ SPECIFICATION Spec
 INVARIANT Defined
 INVARIANT ShapeMatches
 INVARIANT Handed
-INVARIANT AlgoRefines
 CHECK_DEADLOCK FALSE
